@@ -6,7 +6,10 @@
 //! op-relation evaluator O2 (does the forged assignment still satisfy every relation?), proven
 //! with the honest prover data and shown to the verifier. Unsatisfying forgeries must be rejected.
 
+use std::collections::BTreeSet;
+
 use p3_circuit::tables::Traces;
+use p3_field::PrimeCharacteristicRing;
 use p3_circuit::{AluOpKind, Op, WitnessId};
 use p3r_verif::fields::Setup;
 use p3r_verif::opsem::check_ops;
@@ -110,7 +113,78 @@ fn delta<S: Setup>(rng: &mut SmallRng) -> S::E {
     }
 }
 
-fn forgeries<S: Setup>(built: &Built<S>, honest: &Traces<S::E>, publics: &[S::E], rng: &mut SmallRng, per_class: usize) -> Vec<Forgery<S::E>> {
+/// Slots that no committed table cell carries under this packing: intermediate results of packed
+/// Horner rows (the `out` of a step that only feeds the accumulator of the next step in the same
+/// row). Found by experiment, not by re-deriving the schedule: a candidate is uncommitted iff
+/// changing its value everywhere leaves every main matrix unchanged.
+fn uncommitted_slots<S: Setup>(built: &Built<S>, honest: &Traces<S::E>, cfg: &PackCfg, honest_mains: &Option<Vec<Vec<u64>>>) -> BTreeSet<u32> {
+    let c = &built.circuit;
+    let mut other_refs = vec![0usize; c.witness_count as usize];
+    let mut horner_out = vec![false; c.witness_count as usize];
+    let mut acc_refs = vec![0usize; c.witness_count as usize];
+    for op in &c.ops {
+        match op {
+            Op::Alu { kind, a, b, c: cc, out, intermediate_out } => {
+                other_refs[a.0 as usize] += 1;
+                other_refs[b.0 as usize] += 1;
+                if let Some(x) = cc {
+                    other_refs[x.0 as usize] += 1;
+                }
+                if *kind == AluOpKind::HornerAcc {
+                    horner_out[out.0 as usize] = true;
+                    if let Some(x) = intermediate_out {
+                        acc_refs[x.0 as usize] += 1;
+                    }
+                } else {
+                    other_refs[out.0 as usize] += 1;
+                    if let Some(x) = intermediate_out {
+                        other_refs[x.0 as usize] += 1;
+                    }
+                }
+            }
+            Op::Const { out, .. } | Op::Public { out, .. } => other_refs[out.0 as usize] += 1,
+            Op::Hint { inputs, outputs, .. } => {
+                for x in inputs.iter().chain(outputs.iter()) {
+                    other_refs[x.0 as usize] += 1;
+                }
+            }
+            _ => {}
+        }
+    }
+    let mut out = BTreeSet::new();
+    let Some(hm) = honest_mains else { return out };
+    for s in 0..c.witness_count {
+        let i = s as usize;
+        if horner_out[i] && other_refs[i] == 0 && acc_refs[i] >= 1 {
+            let mut t = honest.clone();
+            let v = *honest.witness_trace.get_value(WitnessId(s)).unwrap() + S::E::ONE;
+            set_slot_everywhere::<S>(&mut t, WitnessId(s), v);
+            if let Ok(Ok(m)) = guarded(|| S::mains(c, &t, &cfg.packing())) {
+                if m == *hm {
+                    out.insert(s);
+                }
+            }
+        }
+    }
+    out
+}
+
+/// Existential completion: an uncommitted slot has no cell the verifier could compare with, so
+/// its value is whatever satisfies the relation that defines it (in op order).
+fn settle_uncommitted<S: Setup>(c: &p3_circuit::Circuit<S::E>, w: &mut [S::E], uncommitted: &BTreeSet<u32>) {
+    if uncommitted.is_empty() {
+        return;
+    }
+    for op in &c.ops {
+        if let Op::Alu { kind: AluOpKind::HornerAcc, a, b, c: Some(cc), out, intermediate_out: Some(acc) } = op {
+            if uncommitted.contains(&out.0) {
+                w[out.0 as usize] = w[acc.0 as usize] * w[b.0 as usize] + w[cc.0 as usize] - w[a.0 as usize];
+            }
+        }
+    }
+}
+
+fn forgeries<S: Setup>(built: &Built<S>, honest: &Traces<S::E>, publics: &[S::E], rng: &mut SmallRng, per_class: usize, uncommitted: &BTreeSet<u32>) -> Vec<Forgery<S::E>> {
     let mut out = vec![];
     let c = &built.circuit;
     let refs = p3r_verif::bus::relation_ref_counts(c);
@@ -230,6 +304,7 @@ fn forgeries<S: Setup>(built: &Built<S>, honest: &Traces<S::E>, publics: &[S::E]
                     }
                 }
             }
+            settle_uncommitted::<S>(c, &mut w, uncommitted);
             let sat = match check_ops::<S>(c, &w, &pubs) {
                 Ok(f) => Some(f.is_empty()),
                 Err(_) => None,
@@ -312,6 +387,9 @@ fn forgeries<S: Setup>(built: &Built<S>, honest: &Traces<S::E>, publics: &[S::E]
                 }
             }
         }
+        if !uncommitted.contains(&s.0) {
+            settle_uncommitted::<S>(c, &mut w, uncommitted);
+        }
         let sat = match check_ops::<S>(c, &w, &pubs) {
             Ok(f) => Some(f.is_empty()),
             Err(_) => None,
@@ -377,12 +455,17 @@ fn forged_signature(class: &str, site: &str, slot_class: &str) -> String {
     if class == "const-substituted-and-rederived" || (class == "slot-everywhere" && site.split('+').any(|k| k == "const")) {
         return format!("accepted-forged/{class}/const");
     }
-    match slot_class {
-        "multi-leaf-class" | "horner-referenced" | "first-use-creator:multi-position" | "solved-operand-of-private-out" => {
-            format!("accepted-forged/via-bus-defect/{slot_class}")
-        }
-        _ => format!("accepted-forged/{class}/{site}/{slot_class}"),
+    // forgeries on slots of a C09 bus root-cause class are attributed to that class, but keep the
+    // forgery class and site: a coarser key absorbed an unrelated defect on the same kind of slot
+    if matches!(slot_class, "multi-leaf-class" | "horner-referenced" | "solved-operand-of-private-out")
+        || slot_class.starts_with("first-use-creator:multi-position")
+        || slot_class.starts_with("first-use-creator:aliased-by-out")
+    {
+        // family of the slot class (the exact first-use row shape is C09's business)
+        let family = slot_class.splitn(3, ':').take(2).collect::<Vec<_>>().join(":");
+        return format!("accepted-forged/via-bus-defect/{family}/{class}/{site}");
     }
+    format!("accepted-forged/{class}/{site}/{slot_class}")
 }
 
 fn one<S: Setup>(prog: &Prog, publics: &[S::E], privates: &[S::E], cfg: &PackCfg, rng: &mut SmallRng, key: &str, per_class: usize, sample: bool) -> Vec<CaseResult> {
@@ -404,7 +487,8 @@ fn one<S: Setup>(prog: &Prog, publics: &[S::E], privates: &[S::E], cfg: &PackCfg
     let prover = S::prover_x(cfg.packing(), false, false);
     let mut out = vec![];
     let honest_mains = S::mains(&built.circuit, honest, &cfg.packing()).ok();
-    for (k, f) in forgeries::<S>(built, honest, publics, rng, per_class).into_iter().enumerate() {
+    let uncommitted = uncommitted_slots::<S>(built, honest, cfg, &honest_mains);
+    for (k, f) in forgeries::<S>(built, honest, publics, rng, per_class, &uncommitted).into_iter().enumerate() {
         let fkey = format!("{key}:{}:{}:{k}", f.class, f.site);
         // a "forgery" that does not change any committed matrix is not a forgery (e.g. a cell of a
         // packed Horner step that the table layout does not carry)
@@ -458,6 +542,15 @@ fn case<S: Setup>(seed: u64, idx: usize, tier: Tier) -> Vec<CaseResult> {
     one::<S>(&g.prog, &g.publics, &g.privates, &cfg, &mut rng, &key, tier.pick(2, 3), idx < 4)
 }
 
+fn directed<S: Setup>(seed: u64, k: usize) -> Vec<CaseResult> {
+    let progs = p3r_verif::pgen::first_use_programs::<S>();
+    let (name, prog, pu, pr) = &progs[k % progs.len()];
+    let mut rng = case_rng(seed, "c04-directed", k as u64);
+    let cfg = PackCfg::default_cfg();
+    let key = format!("directed:{}:{name}", S::NAME);
+    one::<S>(prog, pu, pr, &cfg, &mut rng, &key, 8, false)
+}
+
 fn replay<S: Setup>(d: &Value) -> Vec<CaseResult> {
     let (prog, pu, pr, cfg) = decode_case::<S>(d);
     let mut rng = case_rng(0, "c04-replay", 0);
@@ -488,7 +581,17 @@ fn main() {
     }
     let n = args.tier.pick(220usize, 8000usize);
     let (seed, tier) = (args.seed, args.tier);
-    let rs = run_cases_isolated(n, args.threads, |i| with_setup!(SETUP_NAMES[i % SETUP_NAMES.len()], case, seed, i, tier));
+    // directed stream: every first appearance of a private input in an ALU row (the slot classes of
+    // the C09 role-assignment findings), all forgery classes on these tiny programs
+    let nd = p3r_verif::pgen::first_use_programs::<p3r_verif::fields::BbD1>().len() * 2;
+    let rs = run_cases_isolated(n + nd, args.threads, |i| {
+        if i < nd {
+            if i % 2 == 0 { directed::<p3r_verif::fields::BbD1>(seed, i / 2) } else { directed::<p3r_verif::fields::KbD4>(seed, i / 2) }
+        } else {
+            let i = i - nd;
+            with_setup!(SETUP_NAMES[i % SETUP_NAMES.len()], case, seed, i, tier)
+        }
+    });
     rep.add_all(rs);
     rep.finish(args.tier.pick(300, 8000));
 }
